@@ -10,7 +10,9 @@ real run : N tasks (or threads) call send_packet concurrently on the REAL client
                        reader tasks (recv / recv_into) on the same transport and traffic from the peer
              tlsclient AsyncTCPNetworkClient over the TLS transport (senders + recv_packet readers)
              tlsserver the server-side client of AsyncTCPNetworkServer(ssl=...) (senders while the server reads)
-             tcp/udp   blocking thread-safe clients with real threads (stress run, order not controlled)
+             tcp/udp   blocking thread-safe clients with real threads (stress run, order not controlled): senders parked
+                       mid-packet with the lock held, next to threads calling every other thread-safe method of the client
+                       (is_closed, addresses, fileno, socket proxy, recv_packet(timeout=0), ...) and check-then-send idioms
            over an in-memory transport that writes PRNG-chosen partial amounts and suspends the writer for
            PRNG-chosen numbers of loop turns / virtual ticks, on a virtual-time event loop.
 model run: the scheduling decisions the real run took (who ran when, how many bytes each write took) are replayed
@@ -62,8 +64,9 @@ TRUSTED_BASE = [
 ASSUMPTIONS = [
     "senders are not cancelled in the middle of a transport write (the library documents the stream as inconsistent then); "
     "cancellation of senders parked in the lock IS covered",
-    "blocking TCP/UDP clients: thread interleavings are sampled (stress run with a 1 microsecond switch interval and "
-    "GIL-releasing partial writes), not enumerated",
+    "blocking TCP/UDP clients: thread interleavings are sampled (stress run with a 1 microsecond switch interval, "
+    "GIL-releasing partial writes, senders parked mid-packet while other threads call the other thread-safe methods), "
+    "not enumerated",
 ]
 RULE = (
     "case = target x lock kind x serializer x per-sender packet lists, start delays, gaps x transport script "
@@ -71,6 +74,8 @@ RULE = (
     "reader tasks on the same transport (recv / recv_into / recv_packet / the server's receiver; started before, between, "
     "after the senders; parked or woken by peer traffic cut at arbitrary ciphertext offsets) x send_all / "
     "send_all_from_iterable mixed; "
+    "blocking clients: x auxiliary threads polling the other thread-safe methods x check-then-send idioms x send calls "
+    "at which the socket parks the sender mid-packet (lock held) or answers EAGAIN x packets sent by the peer; "
     "non-trivial = at least one sender had to park in the lock / was refused by the guard while another sender was "
     "suspended inside a partially written packet (or, for fairlock, at least one waiter was queued); distinct by case digest"
 )
@@ -397,7 +402,12 @@ def _peer_packets(case: dict, sent_hex: list[str]) -> list[str]:
 def nontrivial(case: dict, real: list[str]) -> str | None:
     t = case["target"]
     if t in ("tcp", "udp"):
-        return f"{t}/threads" if any(ln.startswith("note contended") for ln in real) else None
+        contended = "note contended" in real
+        window = "note aux-window" in real      # an auxiliary call was attempted while a sender was parked mid-packet
+        if not (contended or window):
+            return None
+        with_aux = bool(case.get("aux")) or any(s.get("idioms") for s in case["senders"])
+        return f"{t}/threads" + ("+aux" if with_aux else "") + ("-window" if window else "")
     if t in TLS_TARGETS:
         from vlib import c12_tls
         return c12_tls.nontrivial(case, real)
@@ -437,7 +447,41 @@ def nontrivial(case: dict, real: list[str]) -> str | None:
                                                  ("cancel" if cancelled else ("park-mid-write" if mid else "park")))
 
 
+def shrink_threads(case: dict):
+    """thread cases are sampled: every candidate asks for up to 4 samples (`tries`), so that a smaller case is kept only if
+    it still fails often enough for the replay to fail too"""
+    base = {**case, "tries": 4}
+    ss = case["senders"]
+    aux = case.get("aux", [])
+    for i in range(len(aux)):
+        yield {**base, "aux": aux[:i] + aux[i + 1:]}
+    if len(ss) > 1:
+        for i in range(len(ss)):
+            yield {**base, "senders": ss[:i] + ss[i + 1:]}
+    for i, s in enumerate(ss):
+        if len(s["packets"]) > 1:
+            for j in range(len(s["packets"])):
+                s2 = {k: (v[:j] + v[j + 1:] if k in ("packets", "timeouts", "idioms") else v) for k, v in s.items()}
+                yield {**base, "senders": ss[:i] + [s2] + ss[i + 1:]}
+    for i, a in enumerate(aux):
+        if len(a["ops"]) > 1:
+            for j in range(len(a["ops"])):
+                yield {**base, "aux": aux[:i] + [{**a, "ops": a["ops"][:j] + a["ops"][j + 1:]}] + aux[i + 1:]}
+    for key in ("peer_packets", "eagain"):
+        if case.get(key):
+            yield {k: v for k, v in base.items() if k != key}
+    for i, s in enumerate(ss):
+        for key in ("timeouts", "idioms"):
+            if s.get(key):
+                yield {**base, "senders": ss[:i] + [{k: v for k, v in s.items() if k != key}] + ss[i + 1:]}
+    if len(set(case.get("sizes") or [1])) > 1:
+        yield {**base, "sizes": [1]}
+
+
 def shrink(case: dict):
+    if case["target"] in ("tcp", "udp"):
+        yield from shrink_threads(case)
+        return
     ss = case["senders"]
     key = "rounds" if case["target"] == "fairlock" else "packets"
     if len(ss) > 2:
@@ -484,7 +528,8 @@ def shrink(case: dict):
 def known_key(case: dict, real: list[str], why: str) -> str:
     kind = "deadlock" if "deadlock" in why else (
         "interleave" if "merge" in why or "parse" in why or "decrypt" in why else
-        ("reader" if why.startswith(("reader", "read ", "the readers")) else ("call-failed" if "failed" in why else "lock")))
+        ("reader" if why.startswith(("reader", "read ", "the readers", "the receive calls")) else
+         ("call-failed" if "failed" in why else "lock")))
     return f"target={case['target']},lock={case.get('lock', '-')},kind={kind}"
 
 
@@ -648,7 +693,55 @@ def gen_thread_case(rng, target: str) -> dict:
         # which must never disturb the critical section of the thread that owns the lock
         for s in senders:
             s["timeouts"] = [rng.choice([None, None, 0, 0, 0.0005, 0.02, 5]) for _ in s["packets"]]
+    if rng.random() < 0.85:
+        add_thread_aux(rng, case)
     return case
+
+
+def add_thread_aux(rng, case: dict) -> None:
+    """format 2 of the thread cases (see c12_threads): the senders are not alone on the client.  Auxiliary threads call the
+    other thread-safe methods (everything public that takes the send lock or the receive lock) for as long as the senders
+    run, senders use check-then-send idioms, the socket parks the sender mid-packet (lock held, GIL released) at PRNG
+    chosen send calls or answers EAGAIN, the peer sends packets of its own for the receive calls"""
+    from vlib import c12_threads as T
+
+    tcp = case["target"] == "tcp"
+    senders = case["senders"]
+    timed = any("timeouts" in s for s in senders)
+    if tcp:
+        nbytes = sum(len(R.expected_chunks(case["spec"], h)) for s in senders for h in s["packets"])
+        calls = max(4, int(nbytes / (sum(case["sizes"]) / len(case["sizes"]))))
+    else:
+        calls = sum(len(s["packets"]) for s in senders)
+    style = rng.random()
+    if style < 0.85:
+        aux = []
+        for _ in range(rng.choice([1, 1, 2, 2, 3])):
+            if rng.random() < 0.55:
+                # one method per thread: a call that (wrongly) stopped waiting for the lock spins right through the window
+                # in which the owner is parked; in a longer list it mostly runs just after a call that did wait
+                ops = [rng.choice(["is_closed", "is_closed"] + T.AUX_OPS)]
+            else:
+                ops = rng.sample(T.AUX_OPS, rng.randint(2, 5))
+            aux.append({"ops": ops, "pace": rng.choice(["spin", "spin", "yield", "nap"])})
+        case["aux"] = aux
+    if style >= 0.85 or rng.random() < 0.5:
+        for s in senders:
+            if rng.random() < 0.7:
+                one = rng.choice(T.IDIOMS)
+                s["idioms"] = [one if rng.random() < 0.8 else rng.choice(T.IDIOMS + [None]) for _ in s["packets"]]
+    if rng.random() < 0.85:
+        case["parks"] = sorted(set(rng.randrange(calls) for _ in range(rng.randint(2, 8))))
+        case["park_ms"] = rng.choice([0.3, 0.5, 1, 1, 2])
+    if not timed and rng.random() < 0.3:
+        # (a send with a timeout of 0 that meets EAGAIN in the middle of its packet gives up there: outside the property)
+        case["eagain"] = sorted(set(rng.randrange(calls) for _ in range(rng.randint(1, 4))))
+    if any(op in T.RECV_OPS for a in case.get("aux", []) for op in a["ops"]) and rng.random() < 0.7:
+        if case["spec"]["k"] == "fixed":
+            case["peer_packets"] = [f"p{m:02d}klmnopq"[:case["spec"]["size"]].encode().hex() for m in range(rng.randint(1, 4))]
+        else:
+            case["peer_packets"] = [f"p.{m}.{''.join(rng.choice('klmn') for _ in range(rng.randint(0, 6)))}".encode().hex()
+                                    for m in range(rng.randint(1, 4))]
 
 
 def grid_cases():
@@ -666,18 +759,25 @@ def grid_cases():
                            "script": [[1, p] for p in pauses] + [[1, 1]] * 4, "cancels": []}
 
 
+N_TCP_QUICK, N_UDP_QUICK = 150, 50
+
+
 def generate(rng, tier: str, boost: int):
     quick = tier == "quick"
     plan = [("aclient", 1500 if quick else 20000), ("sclient", 600 if quick else 8000),
             ("fairlock", 1500 if quick else 20000), ("endpoint", 400 if quick else 6000),
             ("tls", 600 if quick else 10000), ("tlsclient", 150 if quick else 2000),
             ("tlsserver", 150 if quick else 2000)]
+    # the thread stress cases come first (a time box that cuts the generation short must not cut them off) and draw from a
+    # stream of their own
+    import random as _random
+    trng = _random.Random(rng.getrandbits(64))
+    for target, n in [("tcp", N_TCP_QUICK if quick else 900), ("udp", N_UDP_QUICK if quick else 300)]:
+        for _ in range(n * boost):
+            yield gen_thread_case(trng, target)
     for target, n in plan:
         for _ in range(n * boost):
             yield gen_async_case(rng, target)
-    for target, n in [("tcp", 60 if quick else 600), ("udp", 20 if quick else 200)]:
-        for _ in range(n * boost):
-            yield gen_thread_case(rng, target)
     if not quick and boost == 1:
         yield from grid_cases()
 
